@@ -179,3 +179,53 @@ Proof.
   - destruct run; [reflexivity | rewrite H; reflexivity].
   - destruct t; [apply IH, H | | ]; (destruct run; [|rewrite H]); rewrite (IH _ _ H); reflexivity.
 Qed.
+
+(* ---- with the decoders ------------------------------------------------------------------------------------- *)
+(* every run that is decoded consists of bytes of the field and of spaces, so two decoders that agree on such strings
+   give the same pieces *)
+Section Decoders.
+  Variable P : Z -> Prop.
+  Variables dec1 dec2 : list Z -> text.
+  Hypothesis Hdec : forall l, Forall P l -> dec1 l = dec2 l.
+  Hypothesis Hsp : P 32.
+
+  Definition token_ok (t : token) : Prop := match t with TChar c => P c | _ => True end.
+
+  Lemma interpret_agree tele : forall ts a run, Forall token_ok ts -> Forall P run ->
+    interpret dec1 tele a run ts = interpret dec2 tele a run ts.
+  Proof.
+    induction ts as [|t ts IH]; intros a run Hts Hrun; cbn [interpret]; unfold flush.
+    - destruct run; [reflexivity | rewrite (Hdec _ Hrun); reflexivity].
+    - inversion Hts as [|? ? Ht Hts']; subst. destruct t as [c| |c sp].
+      + apply IH; [exact Hts'|]. apply Forall_app. split; [exact Hrun | constructor; [exact Ht | constructor]].
+      + rewrite (IH _ [] Hts' (Forall_nil _)). destruct run; [reflexivity | rewrite (Hdec _ Hrun); reflexivity].
+      + assert (Hn : Forall P (if sp then [32] else [])) by (destruct sp; [constructor; [exact Hsp | constructor] | constructor]).
+        rewrite (IH _ _ Hts' Hn). destruct run; [reflexivity | rewrite (Hdec _ Hrun); reflexivity].
+  Qed.
+
+  Lemma token_at_ok dh p c n : P c -> Forall token_ok (token_at dh (p, c, n)).
+  Proof.
+    intros Hc. unfold token_at.
+    destruct (printable c); [constructor; [exact Hc | constructor]|].
+    destruct (c =? 32); [destruct (printable p && printable n); [constructor; [exact Hc | constructor] | constructor]|].
+    destruct (c =? newline_code); [destruct ((n =? filler) || (dh && (n =? newline_code))); [constructor | constructor; [exact I | constructor]]|].
+    destruct (attribute_code c); [constructor; [exact I | constructor] | constructor].
+  Qed.
+
+  Lemma tokens_from_ok dh : forall t prev, Forall P t -> Forall token_ok (tokens_from dh prev t).
+  Proof.
+    induction t as [|c t IH]; intros prev Ht; [constructor|].
+    inversion Ht as [|? ? Hc Ht']; subst. rewrite tokens_from_cons. apply Forall_app. split; [apply token_at_ok, Hc | apply IH, Ht'].
+  Qed.
+
+  Lemma text_of_field_forall bs : Forall P bs -> Forall P (text_of_field bs).
+  Proof.
+    induction 1 as [|b bs Hb _ IH]; [constructor|]. cbn [text_of_field]. destruct (b =? filler); [constructor | constructor; assumption].
+  Qed.
+
+  Lemma tf_spec_agree tele bs : Forall P bs -> tf_spec dec1 tele bs = tf_spec dec2 tele bs.
+  Proof.
+    intros Hb. unfold tf_spec. apply interpret_agree; [|constructor].
+    rewrite tokens_from_start. apply tokens_from_ok, text_of_field_forall, Hb.
+  Qed.
+End Decoders.
